@@ -84,7 +84,7 @@ func (vc *VC) execCall(fr *frame, n *Node, x *ssa.Call) {
 			var outs []Val
 			for i := 0; i < sig.Results().Len(); i++ {
 				rt := sig.Results().At(i).Type()
-				fn := fmt.Sprintf("fapply.%s.%d", typeKey(sig), i)
+				fn := fmt.Sprintf("fapply.%s.%d", sigKey(sig), i)
 				t := vc.enc.uf(fn, sorts, vc.enc.sortOf(rt), ts...)
 				v := vc.def(x.Name(), vc.enc.sortOf(rt), t)
 				vc.assume(vc.enc.wellFormed(v, rt, n.st.wm))
@@ -543,14 +543,29 @@ func (vc *VC) findSpec(name string, pkg *types.Package) *SpecFunc {
 	return nil
 }
 
+// specPkg: the package in whose scope a spec function's types and body are resolved.
+func (c *SpecCtx) specPkg(sf *SpecFunc) *types.Package {
+	if sf.Pkg != "" {
+		if sp := c.vc.prog.SSAPkgs[sf.Pkg]; sp != nil {
+			return sp.Pkg
+		}
+	}
+	return c.pkg
+}
+
 func (c *SpecCtx) applySpec(sf *SpecFunc, argExprs []Expr) Val {
 	if len(argExprs) != len(sf.Params) {
 		c.fail("spec function %s: want %d args, got %d", sf.Name, len(sf.Params), len(argExprs))
 	}
 	enc := c.enc()
+	callerPkg := c.pkg
+	defer func() { c.pkg = callerPkg }()
+	spkg := c.specPkg(sf)
 	var args []Val
 	for i, a := range argExprs {
+		c.pkg = spkg
 		pt := c.resolveType(sf.Params[i].T)
+		c.pkg = callerPkg
 		v := c.eval(a)
 		if v.isConst() {
 			v = c.materialize(v, pt)
@@ -563,6 +578,7 @@ func (c *SpecCtx) applySpec(sf *SpecFunc, argExprs []Expr) Val {
 		}
 		args = append(args, Val{T: v.T, Typ: pt})
 	}
+	c.pkg = spkg
 	rt := c.resolveType(sf.Result)
 	if sf.Body == nil {
 		// uninterpreted
@@ -649,6 +665,15 @@ func (c *SpecCtx) applyFnSpec(sf *SpecFunc, args []Val, rt types.Type) Val {
 		allDecls := append(mdecls, pdecls...)
 		allNames := append(mnames, pnames...)
 		decl := fmt.Sprintf("(declare-fun %s (%s) %s)", name, strings.Join(append(msorts, psorts...), " "), enc.sortOf(rt))
+		if sf.Decreases != nil && len(allNames) > 0 {
+			// "limited" twin: recursive occurrences in the body refer to it, and it has no
+			// unfolding axiom of its own, so E-matching unfolds each written occurrence once
+			// (no matching loop); f and its twin are equal.
+			app := "(" + name + " " + strings.Join(allNames, " ") + ")"
+			lim := "(" + name + ".lim " + strings.Join(allNames, " ") + ")"
+			decl += fmt.Sprintf("\n(declare-fun %s.lim (%s) %s)", name, strings.Join(append(msorts, psorts...), " "), enc.sortOf(rt))
+			decl += fmt.Sprintf("\n(assert (forall (%s) (! (= %s %s) :pattern (%s))))", strings.Join(allDecls, " "), app, lim, app)
+		}
 		if len(allNames) == 0 {
 			decl += fmt.Sprintf("\n(assert (= %s %s))", name, body.T)
 		} else {
@@ -662,6 +687,9 @@ func (c *SpecCtx) applyFnSpec(sf *SpecFunc, args []Val, rt types.Type) Val {
 		// recursive occurrence inside its own body: pass the formal memories through
 		for _, m := range sortedKeys(info.formalSt.epoch.resolved) {
 			ts = append(ts, info.formalSt.epoch.resolved[m])
+		}
+		if sf.Decreases != nil {
+			name = name + ".lim"
 		}
 	} else {
 		for _, m := range info.mems {
